@@ -157,3 +157,37 @@ Theorem C14_elementwise_order_not_necessary : forall v md,
   nth 2 (own_counts shift_new 0) 0 < nth 2 (own_counts shift_old 0) 0.
 Proof. exact elementwise_order_is_not_necessary. Qed.
 Print Assumptions C14_elementwise_order_not_necessary.
+
+(* ---- end to end: whenever the handshake ends in a stream whose two trees coincide, the server's
+   reader decodes EVERY stream the client's writer can produce (any frames/records satisfying
+   stream_ok) completely and in order; and for a server schema that descends from the client's and is
+   not behind, Connect succeeds, the writer is created and the server decodes everything *)
+From Stef Require Import Wire WireOk Frame FrameFacts Reader Writer StreamFactsBase StreamFacts EvolveFactsBase EvolveFacts.
+
+Theorem C14_stream_decoded : forall v scc rc scs rs md o descr tw d' sizes fuel hfl ud frames kr k,
+  handshake v scc rc scs rs md = OStream o descr true ->
+  new_writer v scc rc o = Some (tw, d') ->
+  header_okb hfl descr ud = true ->
+  stream_ok sizes fuel tw frames wst0 RNil (PM.empty _) = true ->
+  (length frames < kr)%nat -> (length (concat (map snd frames)) < k)%nat ->
+  d' = descr /\
+  exists r0,
+    reader_open scs rs (SrcBytes (emit_frame hfl (header_content descr ud) ++ emit_all (stream_encode tw wst0 frames))) = inr r0 /\
+    rd_tree r0 = tw /\ rd_wire_schema r0 = descr /\ rd_user_data r0 = ud /\
+    read_all sizes fuel kr k r0 =
+    (concat (map snd frames), stream_values tw frames RNil (PM.empty _), Some RdEnd).
+Proof. exact handshake_stream_decodes_bytes. Qed.
+Print Assumptions C14_stream_decoded.
+
+Theorem C14_server_not_behind_decodes : forall v scc scs root md,
+  schema_closed scc = true -> evolves scc scs = true -> root < N.of_nat (length (structs scc)) ->
+  build_ok scc root = true ->
+  let cs := own_counts scc root in let ss := own_counts scs root in
+  (cs = ss /\ schema_closed scs = true /\ build_ok scs root = true) \/ compat3 v ss cs = CSuperset ->
+  exists o descr t,
+    connect v cs ss md = Some o /\ o_maxdict o = md /\
+    new_writer v scc root o = Some (t, descr) /\
+    t = fst (build_root scc root None) /\
+    decodes_all scs root descr t.
+Proof. exact handshake_server_not_behind_decodes. Qed.
+Print Assumptions C14_server_not_behind_decodes.
